@@ -1505,7 +1505,8 @@ func (c *Ctx) CLONE(rule string) []report.Obligation {
 			continue
 		}
 		st, ok := rp.Elem().Underlying().(*types.Struct)
-		if !ok || !strings.Contains(strings.ToLower(fn.Name()), "clone") && !strings.Contains(strings.ToLower(fn.Name()), "copy") {
+		names := strings.ToLower(fn.Name() + " " + c.P.RefName(fn))
+		if !ok || !strings.Contains(names, "clone") && !strings.Contains(names, "copy") {
 			continue
 		}
 		// the fresh value
@@ -1524,6 +1525,16 @@ func (c *Ctx) CLONE(rule string) []report.Obligation {
 		id := c.P.FuncID(fn)
 		stored := map[int]bool{}
 		for _, r := range *fresh.Referrers() {
+			// `copied := *o`: the whole value, every field from the field of the same name
+			if sto, ok := r.(*ssa.Store); ok && sto.Addr == ssa.Value(fresh) {
+				if ld, ok := sto.Val.(*ssa.UnOp); ok && ld.Op == token.MUL && ld.X == ssa.Value(fn.Params[0]) {
+					for i := 0; i < st.NumFields(); i++ {
+						stored[i] = true
+						out = append(out, ok2(rule, id+" :: "+st.Field(i).Name()+" copied from the same field", c.P.InstrPos(sto), "the whole value is copied"))
+					}
+				}
+				continue
+			}
 			fa, ok := r.(*ssa.FieldAddr)
 			if !ok {
 				continue
@@ -1622,14 +1633,25 @@ func (c *Ctx) EXTVAL(rule string) []report.Obligation {
 				}
 			}
 		}
-		if len(stores) < 2 || ext == nil {
+		// the choice may be a helper that returns the name, the caller storing its result under `name`
+		var sites []*ssa.BasicBlock
+		if len(stores) >= 2 {
+			for _, mu := range stores {
+				sites = append(sites, mu.Block())
+			}
+		} else if ext != nil && len(returnsOf(fn)) >= 2 && c.resultStoredUnder(fn, "name") {
+			for _, r := range returnsOf(fn) {
+				sites = append(sites, r.Block())
+			}
+		}
+		if len(sites) < 2 || ext == nil {
 			continue
 		}
 		n++
 		// a branch condition computed from the looked-up value (not its ok flag) controls at least one of the stores
 		valueUsed := false
-		for _, mu := range stores {
-			for _, d := range prog.Info(fn).TransitiveControlDeps(mu.Block()) {
+		for _, sb := range sites {
+			for _, d := range prog.Info(fn).TransitiveControlDeps(sb) {
 				iff, ok := d.Branch.Instrs[len(d.Branch.Instrs)-1].(*ssa.If)
 				if !ok {
 					continue
@@ -1677,6 +1699,34 @@ func (c *Ctx) EXTVAL(rule string) []report.Obligation {
 		}
 	}
 	return out
+}
+
+// resultStoredUnder: some function of the same package stores the result of a call to fn under the constant map key.
+func (c *Ctx) resultStoredUnder(fn *ssa.Function, key string) bool {
+	for _, g := range c.P.Funcs {
+		if pkgOfFn(g) != pkgOfFn(fn) {
+			continue
+		}
+		for _, b := range g.Blocks {
+			for _, in := range b.Instrs {
+				mu, ok := in.(*ssa.MapUpdate)
+				if !ok {
+					continue
+				}
+				if k, _ := prog.ConstString(mu.Key); k != key {
+					continue
+				}
+				v := mu.Value
+				if mi, ok := v.(*ssa.MakeInterface); ok {
+					v = mi.X
+				}
+				if call, ok := v.(*ssa.Call); ok && call.Call.StaticCallee() == fn {
+					return true
+				}
+			}
+		}
+	}
+	return false
 }
 
 func derivesFromLookupValue(v ssa.Value, lk *ssa.Lookup, depth int) bool {
@@ -2249,6 +2299,99 @@ func (c *Ctx) BOOLTAB(rule string) []report.Obligation {
 			problem = "the result for " + sv + " is computed, not a constant"
 		}
 	}
+	// table form: `lit, ok := table[strings.ToLower(value)]` on a package-level map literal; the result is the
+	// looked-up value (or one of its fields) on the ok edge, an error on the other
+	for _, b := range f.Blocks {
+		for _, in := range b.Instrs {
+			lk, ok := in.(*ssa.Lookup)
+			if !ok || !lk.CommaOk {
+				continue
+			}
+			ld, ok := lk.X.(*ssa.UnOp)
+			if !ok {
+				continue
+			}
+			g, ok := ld.X.(*ssa.Global)
+			if !ok {
+				continue
+			}
+			rows, err := c.boolMapLiteral(g)
+			if err != "" {
+				problem = err
+				continue
+			}
+			field, found, rejects := -2, false, false
+			for _, ret := range returnsOf(f) {
+				okEdge, known := false, false
+				for _, fct := range prog.DominatingFacts(ret.Block()) {
+					if ex, isE := fct.Cond.(*ssa.Extract); isE && ex.Tuple == ssa.Value(lk) && ex.Index == 1 {
+						okEdge, known = fct.Val, true
+					}
+				}
+				if !known {
+					continue
+				}
+				if !okEdge {
+					if !isNilOrConst(retValue(ret, 1)) {
+						rejects = true
+					}
+					continue
+				}
+				rv := retValue(ret, 0)
+				if mi, isMI := rv.(*ssa.MakeInterface); isMI {
+					rv = mi.X
+				}
+				switch x := rv.(type) {
+				case *ssa.Field:
+					if ex, isE := x.X.(*ssa.Extract); isE && ex.Tuple == ssa.Value(lk) && ex.Index == 0 {
+						field, found = x.Field, true
+					}
+				case *ssa.Extract:
+					if x.Tuple == ssa.Value(lk) && x.Index == 0 {
+						field, found = -1, true
+					}
+				case *ssa.UnOp:
+					// the looked-up struct kept in a local: `lit, ok := table[k]; ...; return lit.value`
+					if fa, isFA := x.X.(*ssa.FieldAddr); isFA && x.Op == token.MUL {
+						if al, isAl := fa.X.(*ssa.Alloc); isAl {
+							stores, fromLookup := 0, false
+							for _, ar := range *al.Referrers() {
+								if st, isSt := ar.(*ssa.Store); isSt && st.Addr == ssa.Value(al) {
+									stores++
+									if ex, isE := st.Val.(*ssa.Extract); isE && ex.Tuple == ssa.Value(lk) && ex.Index == 0 {
+										fromLookup = true
+									}
+								}
+							}
+							fieldWritten := false
+							for _, ar := range *al.Referrers() {
+								if fa2, isFA2 := ar.(*ssa.FieldAddr); isFA2 {
+									for _, fr := range *fa2.Referrers() {
+										if st, isSt := fr.(*ssa.Store); isSt && st.Addr == ssa.Value(fa2) {
+											fieldWritten = true
+										}
+									}
+								}
+							}
+							if stores == 1 && fromLookup && !fieldWritten {
+								field, found = fa.Field, true
+							}
+						}
+					}
+				}
+			}
+			if !found {
+				problem = "the value looked up in " + g.Name() + " is not what is returned"
+				continue
+			}
+			if !rejects {
+				problem = "a text that is not in " + g.Name() + " is not rejected"
+			}
+			for k, r := range rows {
+				table[k] = fmt.Sprint(r[field])
+			}
+		}
+	}
 	want := map[string]string{"true": "true", "y": "true", "yes": "true", "on": "true", "false": "false", "n": "false", "no": "false", "off": "false"}
 	var diffs []string
 	for k, v := range want {
@@ -2267,6 +2410,78 @@ func (c *Ctx) BOOLTAB(rule string) []report.Obligation {
 	}
 	return []report.Obligation{verdict(len(diffs) == 0, rule, "toBoolean :: YAML 1.1 truth table", c.P.Pos(f.Pos()),
 		"true/y/yes/on lead to the constant true, false/n/no/off to the constant false", "the conversion departs from the YAML 1.1 table: "+strings.Join(diffs, "; "))}
+}
+
+// boolMapLiteral reads a package-level map literal keyed by constant strings whose values are booleans or structs
+// of booleans: key -> field index -> value (index -1 is the value itself). The map must not be updated anywhere.
+func (c *Ctx) boolMapLiteral(g *ssa.Global) (map[string]map[int]bool, string) {
+	rows := map[string]map[int]bool{}
+	var mk *ssa.MakeMap
+	for _, fn := range c.P.Funcs {
+		for _, b := range fn.Blocks {
+			for _, in := range b.Instrs {
+				if mu, ok := in.(*ssa.MapUpdate); ok {
+					if ld, ok := mu.Map.(*ssa.UnOp); ok && ld.X == ssa.Value(g) {
+						return nil, "the table " + g.Name() + " is updated at run time [" + c.P.InstrPos(mu) + "]"
+					}
+				}
+			}
+		}
+	}
+	init := g.Pkg.Func("init")
+	if init == nil {
+		return nil, "no initialiser for " + g.Name()
+	}
+	for _, b := range init.Blocks {
+		for _, in := range b.Instrs {
+			if st, ok := in.(*ssa.Store); ok && st.Addr == ssa.Value(g) {
+				mk, _ = st.Val.(*ssa.MakeMap)
+			}
+		}
+	}
+	if mk == nil {
+		return nil, g.Name() + " is not initialised with a map literal"
+	}
+	for _, r := range *mk.Referrers() {
+		mu, ok := r.(*ssa.MapUpdate)
+		if !ok {
+			continue
+		}
+		k, isC := prog.ConstString(mu.Key)
+		if !isC {
+			return nil, "a key of " + g.Name() + " is not a constant"
+		}
+		row := map[int]bool{}
+		if bv, isB := constBool(mu.Value); isB {
+			row[-1] = bv
+		} else if cst, isCst := mu.Value.(*ssa.Const); isCst && cst.Value == nil {
+			// the zero value: every field false
+		} else if ld, isLd := mu.Value.(*ssa.UnOp); isLd && ld.Op == token.MUL {
+			al, isAl := ld.X.(*ssa.Alloc)
+			if !isAl {
+				return nil, "the row " + k + " of " + g.Name() + " is not a literal"
+			}
+			for _, ar := range *al.Referrers() {
+				fa, isFA := ar.(*ssa.FieldAddr)
+				if !isFA {
+					continue
+				}
+				for _, fr := range *fa.Referrers() {
+					if st, isSt := fr.(*ssa.Store); isSt && st.Addr == ssa.Value(fa) {
+						bv, isB := constBool(st.Val)
+						if !isB {
+							return nil, "a field of the row " + k + " of " + g.Name() + " is not a constant"
+						}
+						row[fa.Field] = bv
+					}
+				}
+			}
+		} else {
+			return nil, "the row " + k + " of " + g.Name() + " is not a literal"
+		}
+		rows[k] = row
+	}
+	return rows, ""
 }
 
 func orNone(s string) string {
@@ -2313,10 +2528,37 @@ func (c *Ctx) PROFSTAR(rule string) []report.Obligation {
 					}
 				}
 			case *ssa.Call:
-				if strings.HasSuffix(staticName(&x.Call), "slices.Contains") && len(x.Call.Args) == 2 && sameParam(x.Call.Args[0], prof) {
+				sn := staticName(&x.Call)
+				if strings.HasSuffix(sn, "slices.Contains") && len(x.Call.Args) == 2 && sameParam(x.Call.Args[0], prof) {
 					if s, ok := prog.ConstString(x.Call.Args[1]); ok && s == "*" {
 						n++
 						good = true
+					}
+				}
+				// slices.ContainsFunc(profiles, func(p string) bool { return p == "*" || ... }): the predicate sees every element
+				if (strings.HasSuffix(sn, "slices.ContainsFunc") || strings.HasSuffix(sn, "slices.IndexFunc")) && len(x.Call.Args) == 2 && sameParam(x.Call.Args[0], prof) {
+					var pred *ssa.Function
+					switch fv := x.Call.Args[1].(type) {
+					case *ssa.MakeClosure:
+						pred, _ = fv.Fn.(*ssa.Function)
+					case *ssa.Function:
+						pred = fv
+					}
+					if pred != nil && len(pred.Params) == 1 {
+						for _, pb := range pred.Blocks {
+							for _, pin := range pb.Instrs {
+								bo, ok := pin.(*ssa.BinOp)
+								if !ok || (bo.Op != token.EQL && bo.Op != token.NEQ) {
+									continue
+								}
+								sx, okx := prog.ConstString(bo.X)
+								sy, oky := prog.ConstString(bo.Y)
+								if (oky && sy == "*" && bo.X == ssa.Value(pred.Params[0])) || (okx && sx == "*" && bo.Y == ssa.Value(pred.Params[0])) {
+									n++
+									good = true
+								}
+							}
+						}
 					}
 				}
 			}
@@ -2480,6 +2722,18 @@ func (c *Ctx) TILDE(rule string) []report.Obligation {
 				}
 			} else {
 				why = "the remainder is computed by " + sn
+			}
+		case *ssa.Extract:
+			// rest, found := strings.CutPrefix(p, "~")
+			call, isCall := x.Tuple.(*ssa.Call)
+			if isCall && x.Index == 0 && staticName(&call.Call) == "strings.CutPrefix" && sameParam(call.Call.Args[0], paramByType(f, "string")) {
+				if s, ok := prog.ConstString(call.Call.Args[1]); ok && s == "~" {
+					good = true
+				} else {
+					why = "the prefix removed before joining is not exactly `~`"
+				}
+			} else {
+				why = "the remainder is " + c.P.KeyTerm(rest, 2)
 			}
 		default:
 			why = "the remainder is " + c.P.KeyTerm(rest, 2)
